@@ -11,7 +11,9 @@ LEVEL_TEXT = ("Mixed.  PROVED (contract-based, per operation): for every bit-vec
               "SMT-LIB result of every member tuple is in gamma(result); likewise If (both sorts), the leaves BVV/BVS/BoolV, "
               "apply_annotation (interval, region, uninitialized), the expression-level union/intersection/widen, the queries _eval/_min/_max/"
               "_solution/_has_true/_has_false/_is_true/_is_false/_cardinality/_identical, and LightFrontend's eval/min/max/solution/"
-              "is_true/is_false/satisfiable on top of a contract of the backend.  The member sets are symbolic bit masks over all values of "
+              "is_true/is_false/satisfiable on top of a contract of the backend; the per-node step of excavate_ite (which BackendVSA.convert puts "
+              "in front of the evaluation) is validated for every combination of operand kinds per operation (real output proved equivalent "
+              "to the input by z3).  The member sets are symbolic bit masks over all values of "
               "the width, so each lemma holds for strided intervals, discrete sets and value-set regions alike.  BOUNDED (never counted as "
               "proved): the composition 'sound wrappers => sound evaluation' over Backend.convert's explicit-stack traversal and excavate_ite "
               "is exercised on operation trees over annotated variables against every concrete assignment.")
@@ -30,7 +32,7 @@ FUNCTIONS = ["BackendVSA.__init__ (dispatch tables)", "Backend._call", "BackendV
              "StridedInterval.__add__/__sub__/__mul__/__floordiv__/__truediv__/__neg__/__invert__/__or__/__and__/__xor__/__lshift__/__rshift__/__eq__/__ne__ (dunder -> named operation, incl. normalize_types)",
              "BoolResult.__and__/__or__/__invert__/union/has_true/has_false/is_true/is_false",
              "LightFrontend.eval", "LightFrontend.min", "LightFrontend.max", "LightFrontend.solution", "LightFrontend.is_true", "LightFrontend.is_false",
-             "LightFrontend.satisfiable", "LightFrontend.batch_eval"]
+             "LightFrontend.satisfiable", "LightFrontend.batch_eval", "BackendVSA.convert (excavate_ite in front)", "algorithm.ite_relocation._excavate_ite (per-node step)"]
 TRUSTED = ["z3 4.13 (decides the VCs)", "CPython 3.12 executes the function bodies",
            "ASSUMED callee contracts (vf/contracts/absval.py): the C21 transfer functions, C22 joins/meets/queries and C23 value-set operations satisfy "
            "their property (that is what C21-C23 check; their recorded known findings are therefore NOT excluded here - the lemmas are 'modulo C21-C23')",
@@ -70,6 +72,8 @@ def tasks(tier, seed=0):
     for m in vsaops.LIGHT_METHODS:
         out.append(task(M, "ob_light", f"light.{m}/sound", ["C24"], method=m, tier=tier))
     out.append(task(M, "ob_canary", "vsa.canaries/wrong-postconditions-fail", ["C24"], tier=tier))
+    from vf.props import C08
+    out += C08.ite_step_tasks(tier, ["C24", "C08"])       # BackendVSA.convert evaluates excavate_ite(e), not e
     kl = sorted({l for f in common.load_findings()["findings"] for l in f.get("vsa_labels", [])})
     for i in range(16 if tier == "quick" else 64):
         out.append(task("vf.bounded.vsa_trees", "run", f"vsa.trees/bounded#{i}", ["C24"], kind="bounded", replay="vf.bounded.vsa_trees:replay",
